@@ -17,10 +17,10 @@ def parseU64? (s : String) : Option Nat :=
   let n := cs.foldl (fun acc c => acc * 10 + (c.toNat - 48)) 0
   if n < 2 ^ 64 then some n else none
 
-def showOut : Out Nat Nat → String
+def showOut : Out UInt8 UInt8 → String
   | .none => "none"
   | .err => "err"
-  | .proof slot off a b => s!"proof {off} {slot} {a} {b}"
+  | .proof slot off a b => s!"proof {off.toNat} {slot} {a.toNat} {b.toNat}"
 
 def dump (db : DB) : String :=
   let pre := tablePrefix ++ slotHeaderMapKey
@@ -31,9 +31,9 @@ def dump (db : DB) : String :=
   let ents := (db.filter (fun e => isSlot e.1)).map (fun e => (natOfLE (e.1.drop pre.length), e))
   let ents := ents.mergeSort (fun a b => a.1 ≤ b.1)
   let showEnt (x : Nat × Bytes × Bytes) : String :=
-    match idCodec.dec x.2.2 with
+    match byteCodec.dec x.2.2 with
     | none => "?val" ++ hex x.2.1
-    | some l => s!"{x.1}:" ++ ",".intercalate (l.map (fun e => s!"{e.1}/{e.2}"))
+    | some l => s!"{x.1}:" ++ ",".intercalate (l.map (fun e => s!"{e.1.toNat}/{e.2.toNat}"))
   let odd := (db.filter (fun e => !isSlot e.1 && e.1 != startKey)).map (fun e => "?key" ++ hex e.1)
   " ".intercalate (["start=" ++ start] ++ ents.map showEnt ++ odd)
 
@@ -48,7 +48,7 @@ def stepOp (db : DB) (op : String) : String × DB :=
     match parseU64? a, parseU64? b, parseU64? h, parseU64? s with
     | some slotNow, some slot, some hid, some sid =>
       if hid < numHeaders ∧ sid < numSigners then
-        let r := mstep idCodec (fun (x : Nat) => x) db ⟨slotNow, slot, hid, sid⟩
+        let r := mstep byteCodec (fun (x : UInt8) => x) db ⟨slotNow, slot, UInt8.ofNat hid, UInt8.ofNat sid⟩
         (showOut r.1, r.2)
       else ("bad-op", db)
     | _, _, _, _ => ("bad-op", db)
